@@ -584,9 +584,17 @@ def cases(tier, seed):  # noqa: F811
 
 
 LEVEL = "other"
-ENGINES = ["E2-frame", "E3-E4-rtc"]
-LEVEL_TEXT = ("Mixed. Proved (E2): the channel operations write through no reference reachable from their arguments (e.g. the caller's list of Kraus operators), so "
-              "representations can be reused and converted in any order. The representation-independence identities themselves are complete-per-configuration symbolic "
-              "(sympy entries through the real functions) and bounded numeric run-time contract checks; nothing else is proved.")
+ENGINES = ["E1-pyvc", "E2-frame", "E3-E4-rtc"]
+LEVEL_TEXT = ("Mixed. Proved for ALL dimensions and entries (E1-array with the bilinear extension: the real source executed symbolically, callees by contract; the number of "
+              "Kraus operators 1..3, the representation form, 1..3 tensor factors and the target position are enumerated): apply_channel == sum_i A_i X B_i^dagger for flat / nested / "
+              "paired Kraus forms and == sum_rc X[r,c] J[(r,.),(c,.)] for Choi matrices on square and rectangular operator spaces; kraus_to_choi == sum_ij E_ij (x) Phi(E_ij) "
+              "(sys = 2 and sys = 1) with the real channel_dim inlined; partial_channel == id (x) Phi (x) id for Kraus and Choi forms; natural_representation's entries; and the lemmas "
+              "apply(X, choi(K)) == sum_i A_i X B_i^dagger and natrep(K) vec_row(X) == vec_row(Phi(X)) over those postconditions. Proved (E2): none of the operations writes through its "
+              "arguments. NOT proved, bounded only: choi_to_kraus (eigh / svd), channel_dim on Choi input, dim-omitted calling forms, sparse inputs, floating-point rounding.")
 EXPLANATION = LEVEL_TEXT
-TECHNIQUE = "frame clauses by taint analysis of the real AST (E2) + run-time-checked contracts on symbolic (sympy) and numeric inputs over a bounded domain"
+TECHNIQUE = ("contracts on the real functions discharged from self-generated verification conditions: symbolic execution of the real AST over symbolic-shape arrays whose entries are "
+             "sums of products of input entries (E1-array/bilinear; z3 / cvc5 / polynomial normal form), frame clauses by taint analysis (E2), + run-time-checked contracts on symbolic "
+             "(sympy) and numeric inputs over a bounded domain")
+from props.C04_bilinear import ASSUMED as _BIL_ASSUMED  # noqa: E402
+
+ASSUMPTIONS = list(ASSUMPTIONS) + [a for a in _BIL_ASSUMED if not a.startswith("complementary_channel")]
